@@ -885,7 +885,6 @@ func (mc *mbClassifier) classify(v ssa.Value, at int) (bool, string) {
 	return false, strings.Join(p.origins(v), " | ")
 }
 
-
 // spilledParamIndex: al is the local cell of parameter #k of fn (stored once, with that parameter).
 func spilledParamIndex(al *ssa.Alloc, fn *ssa.Function) (*ssa.Parameter, int) {
 	if al.Referrers() == nil {
